@@ -247,9 +247,31 @@ package lua
 // pushCallFrame: a non-function or a full call stack is a Lua error raised BEFORE the frame is pushed, so
 // callFrameStack.Push's precondition holds and its Go panic is unreachable (C12); the frame set-up is initCallFrame's.
 //@ func (*LState).pushCallFrame [C02 C10 C12]
-//@ requires ls != nil && ls.reg != nil && Inv_reg(ls.reg) && ls.stack != nil && $inv(ls.stack) && cfValid(ls, cf) && fn != nil && !meta
+//@ requires ls != nil && ls.reg != nil && Inv_reg(ls.reg) && ls.stack != nil && $inv(ls.stack) && cfValid(ls, cf) && fn != nil
 //@ cut@"nvarargs := nargs - np" the vararg relocation of the inlined initCallFrame is not verified yet
 //@ ensures  $inv(ls.stack) && $sp(ls.stack) == old($sp(ls.stack)) + 1 && ls.currentFrame == $frame(ls.stack, old($sp(ls.stack))) && ls.currentFrame != nil
-//@ ensures  ls.currentFrame.Fn == cf.Fn && ls.currentFrame.Fn != nil && ls.currentFrame.Parent == cf.Parent && ls.currentFrame.Base == cf.Base && ls.currentFrame.ReturnBase == cf.ReturnBase && ls.currentFrame.NRet == cf.NRet && ls.currentFrame.NArgs == cf.NArgs && ls.currentFrame.Pc == cf.Pc && ls.currentFrame.TailCall == cf.TailCall && ls.currentFrame.Idx == old($sp(ls.stack))
+//@ ensures  ls.currentFrame.Fn == cf.Fn && ls.currentFrame.Fn != nil && ls.currentFrame.Parent == cf.Parent && ls.currentFrame.Base == cf.Base && ls.currentFrame.ReturnBase == cf.ReturnBase && ls.currentFrame.NRet == cf.NRet && ls.currentFrame.NArgs == cf.NArgs + ite(meta, 1, 0) && ls.currentFrame.Pc == cf.Pc && ls.currentFrame.TailCall == cf.TailCall && ls.currentFrame.Idx == old($sp(ls.stack))
 //@ ensures  forall i int :: 0 <= i && i < old($sp(ls.stack)) ==> $frame(ls.stack, i) == old($frame(ls.stack, i)) && unchanged($frame(ls.stack, i))
 //@ modifies ghost(ls.stack), type callFrame.*, ls.currentFrame, ls.reg.array, ls.reg.top, ls.reg.array[*]
+
+//@ trusted callGFunction [C02 C06 C10]
+//@ assume callGFunction runs an arbitrary host function; its result adjustment (CopyRange of the top-most gfnret values) is verified separately below
+//@ modifies everything
+
+// data-structure invariant of LFunction (established by newLFunctionL/newLFunctionG, the only constructors): a Lua function has a prototype
+//@ define fnsValid() bool = forall f *LFunction :: f != nil && !f.IsG ==> f.Proto != nil
+// no typed-nil pointer is ever wrapped in an LValue (type invariant of values held in registers, metatable fields and the per-type metatables)
+//@ define valOK(v LValue) bool = v != nil && (isTab(v) ==> tab(v) != nil) && (isFn(v) ==> fn(v) != nil) && (isUd(v) ==> ud(v) != nil) && (isTh(v) ==> th(v) != nil)
+//@ define mtsValid(L *LState) bool = (forall t *LTable :: valOK(t.Metatable)) && (forall u *LUserData :: valOK(u.Metatable)) && (forall k int :: valOK(L.G.builtinMts[k]) || !has(L.G.builtinMts, k))
+//@ define regsValid(L *LState) bool = forall k int :: 0 <= k && k < top(L) ==> valOK(L.reg.array[k])
+
+// OP_CALL: thin contract. What is proved: no implicit Go panic under the operand conditions, the call-stack
+// overflow and non-function checks precede the frame push, and the inlined pushCallFrame/initCallFrame copies
+// satisfy the contracts of their source functions (BLOCK obligations).
+//@ func jumpTable[OP_CALL] [C02 C07 C12]
+//@ requires Frame(L) && L.stack != nil && $inv(L.stack) && L.G != nil && regsValid(L) && opA(inst) < nreg(L)
+//@ requires opB(inst) != 0 ==> lb(L) + opA(inst) + opB(inst) <= top(L)
+//@ requires opB(inst) == 0 ==> lb(L) + opA(inst) + 1 <= top(L)
+//@ requires fnsValid() && mtsValid(L)
+//@ cut@"nvarargs := nargs - np" the vararg relocation of the inlined initCallFrame is not verified yet
+//@ modifies everything
